@@ -284,3 +284,17 @@ package tds
 //@   modifies
 //@ interface FieldData.SetValue params (v)
 //@   modifies this.*
+
+//@ # ---------------------------------------------------------------------
+//@ # Packet reader
+//@ func (*PacketHeader).ReadFrom returns (n, err)
+//@   requires [nonnil-reader] nonnil(r)
+//@   ensures [n8] err == nil ==> n == 8
+//@ func (*PacketHeader).Write returns (n, err)
+//@   ensures [n8] err == nil ==> n == 8
+//@ func (*Packet).ReadFrom returns (total, err)
+//@   requires [nonnil-ctx] nonnil(ctx)
+//@   requires [nonnil-reader] nonnil(reader)
+//@   loop 0:
+//@     invariant [n8] n == 8 && 8 <= totalBytes && totalBytes - 8 <= len(packet.Data)
+//@     invariant [ctx] nonnil(timeoutCtx) && cancel != nil
